@@ -214,7 +214,22 @@ impl Property for C16S {
         // BST #n,@PnDR in a third of the scenarios: with C = 1 it sets the bit, with C = 0 and the bit reading 0 it writes
         // the byte back unchanged (loading the latch with the pin levels of input bits); the remaining case ends the judging
         let with_bst = rng.chance(1, 3);
+        // neighbours: stores to I/O registers that are NOT port direction/data registers (the pull-up control registers of
+        // ports 2, 4, 5 and others) - nothing a port's DR may depend on; timer noise: 8-bit timer 0 counts with frequent
+        // compare matches and a non-zero output-select nibble (no interrupt enabled) while the ports are exercised
+        let neighbours = rng.chance(1, 3);
+        let timer_noise = rng.chance(1, 4);
         let mut blocks = Vec::new();
+        if timer_noise {
+            if !ports.contains(&11) {
+                ports[0] = 11;
+            }
+            let a = rng.range(2, 40) as u8;
+            blocks.push(Block::Store { addr: 0xffff84, val: a, short: true });
+            blocks.push(Block::Store { addr: 0xffff86, val: a + rng.range(1, 40) as u8, short: true });
+            blocks.push(Block::Store { addr: 0xffff82, val: rng.u8() & 0x0f, short: true });
+            blocks.push(Block::Store { addr: 0xffff80, val: *rng.pick(&[0x09u8, 0x11, 0x01, 0x0a]), short: true });
+        }
         for _ in 0..n {
             let port = *rng.pick(&ports) as u32;
             let val = if rng.chance(2, 3) { *rng.pick(&covering) } else { rng.u8() };
@@ -236,6 +251,11 @@ impl Property for C16S {
                 // instructions that only READ a data register (BTST, BLD, BAND, BOR, BXOR, MOV.B @aa:8,Rd): no latch moves
                 7 => Block::BitOp { aa: (0xd0 + port - 1) as u8, bit: rng.below(8) as u8, op: rng.range(3, 8) as u8 },
                 6 => if rng.chance(1, 2) { Block::Arith(rng.u8()) } else { Block::Filler(rng.u32()) },
+                _ if neighbours && rng.chance(1, 2) => Block::Store {
+                    addr: if rng.chance(2, 3) { *rng.pick(&[0xfee03cu32, 0xfee03e, 0xfee03f]) } else { 0xfee00b + rng.below(0x15) as u32 },
+                    val: if rng.chance(1, 2) { 0xff } else { rng.u8() },
+                    short: false,
+                },
                 _ => Block::Delay(rng.range(1, 6) as u16),
             });
         }
